@@ -34,6 +34,9 @@ func init() {
 				switch r.Intn(4) {
 				case 0:
 					front, n, strict, cons, obj = coveringProblem(r)
+					if r.Intn(6) == 0 {
+						front, n, strict, cons, obj = starsProblem(r)
+					}
 					hasObj = true
 				case 1: // PB heavy
 					front, strict = "pb", false
